@@ -183,3 +183,21 @@ pub fn snap_norm(s: &str) -> String {
         Err(_) => s.to_string(),
     }
 }
+
+pub fn hex(bytes: &[u8]) -> String {
+    if bytes.is_empty() {
+        return "-".into();
+    }
+    bytes.iter().map(|b| format!("{:02x}", b)).collect()
+}
+
+pub fn unhex(s: &str) -> Vec<u8> {
+    if s == "-" {
+        return Vec::new();
+    }
+    (0..s.len() / 2).map(|i| u8::from_str_radix(&s[2 * i..2 * i + 2], 16).unwrap()).collect()
+}
+
+pub fn unhex_str(s: &str) -> String {
+    String::from_utf8(unhex(s)).unwrap()
+}
